@@ -7,6 +7,7 @@ Obligations generated inside a region that the contract file marks as outside th
 are still tried; if not proved they are reported `outside` with the stated reason (never refuted:
 a counter-model there would only be a model of the too-weak invariant).
 """
+import itertools
 import multiprocessing as mp
 import time
 import z3
@@ -34,17 +35,17 @@ def split_goal(g, depth=4):
     return [g]
 
 
-def build_queries(ob):
-    """-> list of (smt_without_quantified_hyps | None, smt_full).  The first form keeps only the explicit
-    instances of the bounded-universal hypotheses: `unsat` there is already a proof (fewer hypotheses)."""
+def prepare(ob):
+    """-> (ground hyps, quantified hyps, [goal | None], [case assumptions])."""
     hyps = list(ob.hyps)
     insts = [t if isinstance(t, tuple) else (t,) for t in ob.insts]
     goal = ob.goal
     if isinstance(goal, All):
-        xs = tuple(z3.Int(fresh_name(nm + "!sk")) for nm in goal.names)
+        xs = tuple(z3.Int("%s!sk%d" % (nm, id(ob) % 100000)) for nm in goal.names)
         hyps.append(goal.rng(*xs))
         insts.append(xs)
-        insts += list(goal.inst)
+        insts += [t if isinstance(t, tuple) else (t,) for t in
+                  (goal.inst_fn(*xs) if goal.inst_fn else goal.inst)]
         goal = conj(goal.body(*xs))
     else:
         goal = conj(goal)
@@ -62,22 +63,40 @@ def build_queries(ob):
         else:
             ground.append(h)
     goals = [None] if ob.cover else split_goal(goal)
+    cases = [[]]
+    for a in ob.split:
+        cases = [cs + [a] for cs in cases] + [cs + [z3.Not(a)] for cs in cases]
+    return ground, quants, goals, cases, [h for h in hyps if isinstance(h, All)]
+
+
+def cover_query(ob, b1=10, bk=3, hyps=None):
+    """A satisfiability (non-vacuity) check must not be answered by dropping hypotheses.  Every bounded
+    universal hypothesis  forall lo<=x<hi. P(x)  is replaced by  hi <= lo+B  /\\  P(lo) /\\ ... /\\ P(lo+B-1)
+    (guarded by the range), which is *stronger* than the original: a model of this is a model of the real
+    path condition (restricted to small extents)."""
     out = []
-    for g in goals:
-        s1 = z3.Solver()
-        s1.add(*ground)
-        if g is not None:
-            s1.add(z3.Not(g))
-        if quants:
-            s2 = z3.Solver()
-            s2.add(*ground)
-            s2.add(*quants)
-            if g is not None:
-                s2.add(z3.Not(g))
-            out.append((s1.sexpr(), s2.sexpr()))
+    for h in (ob.hyps if hyps is None else hyps):
+        if isinstance(h, All):
+            b = b1 if h.arity == 1 else bk
+            for lo, hi in h.bounds:
+                out.append(hi <= lo + b)
+            for offs in itertools.product(range(b), repeat=h.arity):
+                out.append(h.at(*[lo + o for (lo, hi), o in zip(h.bounds, offs)]))
         else:
-            out.append((None, s1.sexpr()))
+            out.append(h)
     return out
+
+
+def n_queries(ob):
+    if ob.cover:
+        return 1
+    goal = ob.goal
+    if isinstance(goal, All):
+        xs = tuple(z3.Int("%s!cnt" % nm) for nm in goal.names)
+        goal = conj(goal.body(*xs))
+    else:
+        goal = conj(goal)
+    return len(split_goal(goal)) * (2 ** len(ob.split))
 
 
 def _model_dict(m):
@@ -93,70 +112,105 @@ def _model_dict(m):
         elif z3.is_true(v) or z3.is_false(v):
             out[d.name()] = z3.is_true(v)
     # keep program-level names first, generated ones after, bounded size
-    keys = sorted(out, key=lambda k: (("#" in k) or ("!" in k), k))
-    return {k: out[k] for k in keys[:60]}
+    def rank(k):
+        if "#" not in k and "!" not in k:
+            return 0                      # program-level: parameters, globals at entry
+        if "!sk" in k:
+            return 1                      # skolem constants of the goal (the offending index)
+        if "@" in k and "." not in k.split("#")[0].split("@", 1)[1]:
+            return 2                      # scalar havocked at a loop head / by a call:  name@where
+        return 3
+    keys = sorted(out, key=lambda k: (rank(k), k))
+    return {k: out[k] for k in keys[:28]}
 
 
-def _solve(ctx, smt, timeout, alt=False):
-    s = z3.Solver(ctx=ctx)
+def _solve(asserts, timeout, alt=False):
+    s = z3.Solver()
     s.set("timeout", max(int(timeout), 1))
     if alt:
         s.set("smt.arith.solver", 2)
-    s.from_string(smt)
+    s.add(*asserts)
     r = s.check()
     return str(r), (_model_dict(s.model()) if r == z3.sat else None)
 
 
+_OBS = []          # inherited by the forked workers (z3 terms are used in place, nothing is re-parsed)
+_CACHE = {}
+
+
 def _check(args):
-    idx, qf, full, cover, timeout = args
+    ob_idx, sub, timeout = args
     t0 = time.time()
     left = lambda: timeout - int((time.time() - t0) * 1000)
+    ob = _OBS[ob_idx]
     try:
-        ctx = z3.Context()
-        if qf is not None:
-            r, model = _solve(ctx, qf, min(timeout // 2, left()))
-            if (r == "unsat" and not cover):
-                return idx, r, time.time() - t0, None
-        r, model = _solve(ctx, full, left())
-        if r == "unknown" and not cover and left() > 1500:
-            r, model = _solve(ctx, full, left(), alt=True)
+        if _CACHE.get("idx") != ob_idx:
+            _CACHE["idx"], _CACHE["prep"] = ob_idx, prepare(ob)
+        if ob.cover:
+            r, model = _solve(cover_query(ob), timeout // 2)
+            if r == "sat":
+                return ob_idx, sub, r, time.time() - t0, None
+        ground, quants, goals, cases, alls = _CACHE["prep"]
+        g, case = list(itertools.product(goals, cases))[sub]
+        base = list(case) + ground + ([z3.Not(g)] if g is not None else [])
+        r, model = None, None
+        if quants:
+            # 1. explicit instances only: unsat is already a proof
+            r, model = _solve(base, min(timeout * 2 // 5, left()))
+            if r == "unsat" and not ob.cover:
+                return ob_idx, sub, r, time.time() - t0, None
+            # 2. small extents, universals fully expanded (stronger hypotheses): sat is a genuine counter-model
+            if not ob.cover:
+                r2, model2 = _solve(base + cover_query(ob, hyps=alls), min(timeout * 3 // 10, left()))
+                if r2 == "sat":
+                    return ob_idx, sub, r2, time.time() - t0, model2
+            # 3. the full quantified query
+            base = base + quants
+        r, model = _solve(base, left())
+        if r == "unknown" and not ob.cover and left() > 1500:
+            r, model = _solve(base, left(), alt=True)
     except Exception as ex:  # solver crash = unknown, never proved
         r, model = "unknown", {"error": repr(ex)}
-    return idx, r, time.time() - t0, model
+    return ob_idx, sub, r, time.time() - t0, model
 
 
 def discharge(obs, jobs=None, timeout=TIMEOUT_MS):
     """returns list of per-query dicts (several per Ob when the goal was split; aggregate() folds them)."""
-    tasks, owner = [], []
-    for ob in obs:
-        for qf, full in build_queries(ob):
-            tasks.append((len(tasks), qf, full, ob.cover, timeout))
-            owner.append(ob)
+    global _OBS
+    _OBS = list(obs)
+    _CACHE.clear()
+    tasks = []
+    for i, ob in enumerate(obs):
+        for k in range(n_queries(ob)):
+            tasks.append((i, k, timeout))
     jobs = jobs or min(16, mp.cpu_count())
-    results = [None] * len(tasks)
+    results = []
     par = jobs > 1 and len(tasks) >= 4
     if par:
         pool = mp.get_context("fork").Pool(jobs)
-        it = pool.imap_unordered(_check, tasks, chunksize=2)
+        it = pool.imap_unordered(_check, tasks, chunksize=4)
     else:
         it = map(_check, tasks)
-    for idx, res, dt, model in it:
-        ob = owner[idx]
+    for ob_idx, sub, res, dt, model in it:
+        ob = obs[ob_idx]
         if ob.cover:
             status = {"sat": "proved", "unsat": "refuted"}.get(res, "unknown")
             model = {"dead_path": True} if status == "refuted" else None
         else:
             status = {"unsat": "proved", "sat": "refuted"}.get(res, "unknown")
         detail = ob.detail
+        if model and "error" in model:
+            detail += " [solver error: %s]" % model["error"]
         if status != "proved" and ob.zone:
             detail = "%s -- OUTSIDE: %s (solver said %s)" % (detail, ob.zone, res)
             status, model = "outside", None
-        results[idx] = {"function": ob.function, "name": ob.name, "kind": ob.kind, "status": status,
+        results.append({"function": ob.function, "name": ob.name, "kind": ob.kind, "status": status,
                         "solver": "z3", "time_s": round(dt, 4), "model": model if status == "refuted" else None,
-                        "detail": detail}
+                        "detail": detail, "_order": (ob_idx, sub)})
     if par:
         pool.close()
         pool.join()
+    results.sort(key=lambda r: r.pop("_order"))
     return results
 
 
